@@ -1,6 +1,7 @@
 package rules
 
 import (
+	"fmt"
 	"go/token"
 	"go/types"
 
@@ -21,70 +22,7 @@ func c14PayloadIsWhatWasRead(c *Ctx) {
 		n := NamedOf(t)
 		return n != nil && n.Obj().Pkg() != nil && n.Obj().Pkg().Path() == "net" && n.Obj().Name() == "Conn"
 	}
-	var readCount func(v ssa.Value, seen map[ssa.Value]bool, d int) bool
-	readCount = func(v ssa.Value, seen map[ssa.Value]bool, d int) bool {
-		if d > 10 {
-			return false
-		}
-		if seen[v] {
-			return true
-		}
-		seen[v] = true
-		switch x := v.(type) {
-		case *ssa.Const:
-			return x.Value != nil && x.Value.ExactString() == "0"
-		case *ssa.Extract:
-			call, ok := x.Tuple.(*ssa.Call)
-			if !ok {
-				return false
-			}
-			cc := call.Common()
-			if cc.IsInvoke() {
-				return x.Index == 0 && cc.Method.Name() == "Read"
-			}
-			f := cc.StaticCallee()
-			if f == nil {
-				return false
-			}
-			if FuncIs(f, "io", "ReadFull") || FuncIs(f, "io", "ReadAtLeast") {
-				return x.Index == 0
-			}
-			if !InRepo(f) {
-				return x.Index == 0 && f.Name() == "Read"
-			}
-			// (buffer, count) := helper(conn): the count result of an in-repo helper
-			return helperReturnsCount(f, x.Index, cc.Args, seen, d, readCount)
-		case *ssa.Call:
-			f := x.Call.StaticCallee()
-			if f == nil || !InRepo(f) {
-				return false
-			}
-			return helperReturnsCount(f, 0, x.Call.Args, seen, d, readCount)
-		case *ssa.Phi:
-			for _, e := range x.Edges {
-				if !readCount(e, seen, d+1) {
-					return false
-				}
-			}
-			return true
-		case *ssa.BinOp:
-			if x.Op == token.ADD {
-				return readCount(x.X, seen, d+1) && readCount(x.Y, seen, d+1)
-			}
-		case *ssa.UnOp:
-			if x.Op == token.MUL {
-				if a, ok := x.X.(*ssa.Alloc); ok {
-					for _, sv := range StoredValues(a) {
-						if !readCount(sv, seen, d+1) {
-							return false
-						}
-					}
-					return true
-				}
-			}
-		}
-		return false
-	}
+	readCount := readCountOf
 	n := 0
 	payloadFn := p.Func("event", "Payload")
 	if !c.Anchor(payloadFn != nil, rule, "event.Payload") {
@@ -192,4 +130,139 @@ func helperReturnsCount(f *ssa.Function, idx int, args []ssa.Value, seen map[ssa
 		}
 	}
 	return true
+}
+
+// readCountOf: v is (a sum of) counts returned by Read on a buffer – directly, through φ/+/a spilled variable, or as the
+// result of an in-repo helper whose returns are such counts.
+func readCountOf(v ssa.Value, seen map[ssa.Value]bool, d int) bool {
+	readCount := readCountOf
+	if d > 10 {
+		return false
+	}
+	if seen[v] {
+		return true
+	}
+	seen[v] = true
+	switch x := v.(type) {
+	case *ssa.Const:
+		return x.Value != nil && x.Value.ExactString() == "0"
+	case *ssa.Extract:
+		call, ok := x.Tuple.(*ssa.Call)
+		if !ok {
+			return false
+		}
+		cc := call.Common()
+		if cc.IsInvoke() {
+			return x.Index == 0 && cc.Method.Name() == "Read"
+		}
+		f := cc.StaticCallee()
+		if f == nil {
+			return false
+		}
+		if FuncIs(f, "io", "ReadFull") || FuncIs(f, "io", "ReadAtLeast") {
+			return x.Index == 0
+		}
+		if !InRepo(f) {
+			return x.Index == 0 && f.Name() == "Read"
+		}
+		// (buffer, count) := helper(conn): the count result of an in-repo helper
+		return helperReturnsCount(f, x.Index, cc.Args, seen, d, readCount)
+	case *ssa.Call:
+		f := x.Call.StaticCallee()
+		if f == nil || !InRepo(f) {
+			return false
+		}
+		return helperReturnsCount(f, 0, x.Call.Args, seen, d, readCount)
+	case *ssa.Phi:
+		for _, e := range x.Edges {
+			if !readCount(e, seen, d+1) {
+				return false
+			}
+		}
+		return true
+	case *ssa.BinOp:
+		if x.Op == token.ADD {
+			return readCount(x.X, seen, d+1) && readCount(x.Y, seen, d+1)
+		}
+	case *ssa.UnOp:
+		if x.Op == token.MUL {
+			if a, ok := x.X.(*ssa.Alloc); ok {
+				for _, sv := range StoredValues(a) {
+					if !readCount(sv, seen, d+1) {
+						return false
+					}
+				}
+				return true
+			}
+		}
+	}
+	return false
+}
+
+// servicesPayloadIsWhatWasRead (rule payload-bounded-by-read-count): where a handler records event.Payload(buff[:x]) of a
+// buffer it has just read into, x is what that Read returned. Bounded by anything else – the length the client
+// announced, the buffer size – the payload's tail is whatever the buffer held before: zeros, or with a recycled buffer
+// another client's bytes.
+func servicesPayloadIsWhatWasRead(c *Ctx, rule, consequence string, rels ...string) {
+	p := c.P
+	payloadFn := p.Func("event", "Payload")
+	if payloadFn == nil {
+		return
+	}
+	n := 0
+	for _, fn := range p.FuncsIn(rels...) {
+		// buffers handed to a Read in this function
+		readInto := map[ssa.Value]bool{}
+		for _, call := range Calls(fn) {
+			cc := call.Common()
+			name := ""
+			if cc.IsInvoke() {
+				name = cc.Method.Name()
+			} else if f := cc.StaticCallee(); f != nil {
+				name = f.Name()
+			}
+			if name != "Read" && name != "ReadFull" && name != "ReadAtLeast" {
+				continue
+			}
+			for _, a := range cc.Args {
+				if isByteSlice(a.Type()) {
+					for _, lf := range leaves(a) {
+						readInto[lf] = true
+						if sl, ok := lf.(*ssa.Slice); ok {
+							readInto[sl.X] = true
+						}
+					}
+				}
+			}
+		}
+		if len(readInto) == 0 {
+			continue
+		}
+		for _, call := range Calls(fn) {
+			if call.Common().StaticCallee() != payloadFn || len(call.Common().Args) != 1 {
+				continue
+			}
+			for _, lf := range leaves(call.Common().Args[0]) {
+				sl, ok := lf.(*ssa.Slice)
+				if !ok || sl.High == nil {
+					continue
+				}
+				base := false
+				for _, bl := range leaves(sl.X) {
+					if readInto[bl] {
+						base = true
+					}
+					if s2, ok := bl.(*ssa.Slice); ok && readInto[s2.X] {
+						base = true
+					}
+				}
+				if !base {
+					continue
+				}
+				n++
+				c.Check(readCountOf(sl.High, map[ssa.Value]bool{}, 0), rule, fmt.Sprintf("%s payload #%d", shortFn(fn), n), p.InstrPos(call), "cut at what Read returned", "the recorded payload is `"+RenderN(sl, 3)+"`, a buffer this handler read into, cut at something other than the count that Read returned: "+consequence)
+			}
+		}
+	}
+	c.Ok(rule, "payloads cut from read buffers", "-", fmt.Sprintf("%d examined in %v", n, rels))
 }
